@@ -127,6 +127,15 @@ int run_c19(const Args& a, Recorder& rec) {
             // the library's own eigen-data (validated by C03) carry the block structure needed to say which stripes are removed
             refed::Spectrum sp = refed::spectrum_from(E, U, beta);
             std::vector<refed::Mat> rc(M), rcx(M), rq(M * M); for (int i = 0; i < M; ++i) { rc[i] = refed::to_eigenbasis(sp, refed::c_op(M, i)); rcx[i] = refed::to_eigenbasis(sp, refed::cdag_op(M, i)); for (int j = 0; j < M; ++j) rq[i * M + j] = refed::to_eigenbasis(sp, refed::cdag_op(M, i) * refed::c_op(M, j)); }
+            // truncation histories on ONE density matrix: every sequence of two (thorough: three) truncateBlocks calls with tolerances from the
+            // grid -- after each call the retained flags must be those of the LAST tolerance (they are recomputed, not only cleared)
+            { int depth = a.thorough() ? 3 : 2; long nseq = 1; for (int d = 0; d < depth; ++d) nseq *= (long)epss.size();
+              for (long code = 0; code < nseq; ++code) { DensityMatrix R(*P.S, *P.H, beta); R.prepare(); R.compute(); long cdx = code; std::string hs; bool bad = false;
+                for (int d = 0; d < depth && !bad; ++d) { double eps = epss[cdx % epss.size()]; cdx /= epss.size(); R.truncateBlocks(eps, false); char eb[32]; snprintf(eb, sizeof eb, "%g", eps); hs += std::string(d ? ";" : "") + "truncateBlocks(" + eb + ")"; rec.evaluations++;
+                    for (int b = 0; b < (int)P.S->NumberOfBlocks() && !bad; ++b) { double mx_ = 0; for (unsigned k = 0; k < P.S->getBlockSize(BlockNumber(b)); ++k) mx_ = std::max(mx_, R.getPart(BlockNumber(b)).getWeight(k));
+                        bool want = mx_ > eps, got = R.isRetained(BlockNumber(b));
+                        if (std::abs(mx_ - eps) > 1e-3 * eps && want != got) { rec.violation(std::string("C19:retention-history:") + (got ? "kept-negligible-block" : "discarded-relevant-block"), "after a sequence of truncateBlocks calls isRetained(b) is not the verdict of the last tolerance (max weight " + std::to_string(mx_) + ")", c.repr + " | beta=" + std::to_string(beta) + " | " + hs + " block " + std::to_string(b)); bad = true; } } }
+                rec.counters["truncation_histories"]++; } }
             for (double eps : epss) {
                 std::string kase = c.repr + " | beta=" + std::to_string(beta) + " eps=" + std::to_string(eps);
                 P.make_rho(beta); P.rho->truncateBlocks(eps, false);
